@@ -205,6 +205,16 @@ def check(ctx):
             if k in seen_units: continue
             seen_units.add(k)
             _arms(ctx, u, k)
+        # the executor kinds that take an error callback use it: some body of the item processor invokes it (an unused callback is not even captured,
+        # so its absence must be asked for at the level of the function that received it)
+        fb_ = u.body(fnk)
+        takes_cb = any((fb_.lname(l_) or "") == "on_err_callback" for l_ in range(1, fb_.f["argc"] + 1))
+        if takes_cb:
+            n_cb = 0
+            for k in mem:
+                mb = u.body(k); md = u.dag(k)
+                n_cb += sum(1 for (b, c) in mb.calls if c.get("f") in ("std::ops::Fn::call", "std::ops::FnMut::call_mut", "std::ops::FnOnce::call_once") and c["args"] and "on_err_callback" in show(md.expr(c["args"][0])))
+            ctx.ob("R11.2", f"{tag}|error-callback-is-invoked", n_cb >= 1, site, f"{n_cb} invocation(s) of the on_err_callback this executor was given, in its item processor; required at least one (placement is checked per body)")
     ctx.floor("R11.1", 28)
     # ---------------------------------------------------------------- R11.4 timeout wrapper on the non-zero arm
     by_fn = {}
